@@ -181,7 +181,7 @@ async def rescan_nglobs(workflow: Workflow, reporter: ReporterClient) -> None:
     Steps whose nglob matches changed are marked pending and their new matches are persisted.
     """
     async with workflow.db:
-        registrations = list(workflow.nglob_registrations())
+        registrations = list(workflow.nglob_registrations(include_detached=True))
     if len(registrations) == 0:
         return
 
